@@ -47,6 +47,17 @@ claim("C12", "e1_push",
   "Trusted: SimPush stub + protocol monitor, reference semantics written with std iterators. Keyed accumulators compared as multisets.",
   "DESIGN.md §5 C12, §13")
 
+claim("C11", "e1_pull",
+  "deterministic simulation: seeded Pending placement / spurious polls / wake timing around a 685-shape catalogue of real dfir_pipes pull pipelines, each compared step by step with the same pipeline over std iterators; fusedness, size-hint bracket, lost-wake-up and terminal-future oracles",
+  "Seeded exploration of pending schedules against the real pull combinators (singles, all ordered pairs, depth-3/4 chains, async shapes on the simulated executor); replayable decision traces.",
+  "Trusted: SimPull/SimStream/SimFuture stubs and the std-iterator reference instantiation of each catalogue expression. <=8 items per source, <=3 Pending per position. stream_ready's Ended is read as end-of-tick. Closure side-effect counts are not compared (Zip/CrossSingleton may consume one more input than std zip).",
+  "DESIGN.md §5 C11, §13")
+claim("C13", "e1_pull",
+  "deterministic simulation: seeded left/right arrival interleavings, pending scripts (also during the tick-start drain), set/multiset state, 'static/'tick state per side over 1-4 ticks through all three public forms of the real symmetric hash join; multiset comparison with a reference relational join per tick",
+  "Seeded exploration of arrival schedules and multi-tick histories against the real join code; drain path and incremental path both driven, also mixed.",
+  "Trusted: reference join on (multi)sets; HalfJoinState spy wrapper only forwards. Emission order unspecified, multisets compared. keys 0..2, values 0..3, <=8 arrivals per side per tick.",
+  "DESIGN.md §5 C13, §13")
+
 NOT_BUILT = {}  # pid -> reason while its check is not built yet
 
 ALL = ["C%02d" % i for i in range(1, 43)]
@@ -84,6 +95,7 @@ def main():
     for pid, c in CLAIMED.items():
         engines.setdefault(c["engine"], []).append(pid)
     ENG_KIND = {
+      "e1_pull": "poll-level deterministic simulator for dfir_pipes pull combinators and the symmetric hash join",
       "e1_sink": "poll-level deterministic simulator for sinktools adaptors and MergeSource",
       "e1_push": "poll-level deterministic simulator for dfir_pipes push combinators",
       "e1_pollsim": "poll-level deterministic simulator: scripted Pending/Ready/wake schedules around real dfir_pipes/sinktools/MergeSource/unsync-mpsc code",
